@@ -1,9 +1,188 @@
 import Gzx.Util
+import Gzx.Ref.Aztec
+import Gzx.Model.AztecDecoder
+import Gzx.Proofs.AztecLink
 namespace Gzx.Driver.C11
-open Gzx
+open Gzx Gzx.Ref.Aztec
+
+/-! line protocol of suite `c11`
+
+  ref <compact|full> <layers> t:<hex text> [mc=<minCheck>]     greedy reference encoder
+  ref <compact|full> <layers> s:<script>   [mc=<minCheck>]     scripted reference encoder
+      script = ops separated by ',':  c<code> | L<mode> | S<mode><code> | b<hex> | f<n>:<digits> | F<n>:<digits>
+      (mode letters U L M P D; f = FLG(n) in Punct mode, F = P/S FLG(n))
+    -> ok size=<n> dw=<data words> hl=<bits> words=<data codewords> chk=<check words> mode=<bits> rows=<row>/<row>/...
+-/
+
+def parseMode? : Char → Option Mode
+  | 'U' => some .upper | 'L' => some .lower | 'M' => some .mixed
+  | 'P' => some .punct | 'D' => some .digit | _ => none
+
+def parseDigits? (s : String) : Option (List Nat) :=
+  s.toList.mapM (fun c => if '0' ≤ c ∧ c ≤ '9' then some (c.toNat - 48) else none)
+
+def parseFlg? (s : String) : Option (Nat × List Nat) :=
+  match s.splitOn ":" with
+  | [n, ds] => do
+    let n ← parseNat? n
+    let ds ← parseDigits? ds
+    pure (n, ds)
+  | _ => none
+
+def parseOp? (s : String) : Option Op :=
+  match s.toList with
+  | 'c' :: r => (parseNat? (String.ofList r)).map .ch
+  | 'L' :: m :: [] => (parseMode? m).map .latch
+  | 'S' :: m :: r => do
+    let m ← parseMode? m
+    let c ← parseNat? (String.ofList r)
+    pure (.sh m c)
+  | 'b' :: r => (parseHex? (String.ofList r)).map .bin
+  | 'f' :: r => (parseFlg? (String.ofList r)).map (fun (n, ds) => .flg n ds)
+  | 'F' :: r => (parseFlg? (String.ofList r)).map (fun (n, ds) => .shFlg n ds)
+  | _ => none
+
+def parseScript? (s : String) : Option (List Op) :=
+  if s.isEmpty || s == "-" then some [] else (s.splitOn ",").mapM parseOp?
+
+def showMode : Mode → String
+  | .upper => "U" | .lower => "L" | .mixed => "M" | .punct => "P" | .digit => "D"
+
+def showOp : Op → String
+  | .ch c => s!"c{c}"
+  | .latch m => "L" ++ showMode m
+  | .sh m c => "S" ++ showMode m ++ toString c
+  | .bin bs => "b" ++ showHex bs
+  | .flg n ds => s!"f{n}:" ++ String.join (ds.map toString)
+  | .shFlg n ds => s!"F{n}:" ++ String.join (ds.map toString)
+
+def showScript (ops : List Op) : String :=
+  if ops.isEmpty then "-" else ",".intercalate (ops.map showOp)
+
+def showBitsD (bs : List Bool) : String := if bs.isEmpty then "-" else showBits bs
+
+def showItem : Item → String
+  | .bytes bs => "B" ++ showHex bs
+  | .fnc1 => "G"
+  | .eci n => s!"E{n}"
+
+def showSymbol (s : Symbol) : String :=
+  s!"ok size={s.matrix.length} dw={s.dataWords.length} hl={showBitsD s.hlBits} " ++
+  s!"words={showNatList s.dataWords} chk={showNatList s.checkWords} mode={showBits s.modeMsg} " ++
+  "rows=" ++ "/".intercalate (s.matrix.map showBits)
+
+def showEncErr : EncErr → String
+  | .badScript => "ERR:badscript" | .badLayers => "ERR:badlayers" | .tooLong => "ERR:toolong"
+  | .internal => "ERR:internal"
+
+def parseOpsArg? (arg : String) : Option (List Op) :=
+  if arg.startsWith "t:" then (parseHex? (arg.drop 2).toString).map greedy
+  else if arg.startsWith "s:" then parseScript? (arg.drop 2).toString
+  else none
+
+/-! decoder-model commands
+
+  hld <bits|-> [reg=<registered ECI values>]           getEncodedData
+     -> ok <utf8 hex>                (only the default character set involved)
+      | seg <seg> <seg> ...          (L<hex> default charset, E<eci>:<hex>, R<hex> raw bytes)
+      | ERR:<kind>
+  decode <compact|full> <layers> <nbDatablocks> <rows> [reg=..]   Decoder.Decode
+     -> <hld result> raw=<hex> nbits=<n> ec=<n> | ERR:<kind>
+  extract <compact|full> <layers> <rows>               extractBits -> bit string
+  pos <compact|full> <layers>                          read position of every stream bit: x:y,x:y,...
+  layoutcheck <compact|full> <layers>                  decoder read order vs reference layout (run-time check)
+  detect <compact|full> <shift> <mode bits>            detector tail on ideal samples of the core ring
+-/
+
+open Gzx.AztecDecoder in
+def showSeg : Seg → String
+  | .enc none bs => "L" ++ showHex bs
+  | .enc (some e) bs => s!"E{e}:" ++ showHex bs
+  | .raw bs => "R" ++ showHex bs
+
+def showSegs (segs : List AztecDecoder.Seg) : String :=
+  match AztecDecoder.renderDefault segs with
+  | some u => "ok " ++ showHex u
+  | none => "seg " ++ " ".intercalate (segs.map showSeg)
+
+def regOf (opts : List String) : Nat → Bool :=
+  let l := ((argOf opts "reg").bind parseNatList?).getD []
+  fun n => n < 900 && l.contains n
+
+def parseRows (s : String) : List (List Bool) :=
+  if s == "-" then [] else (s.splitOn "/").map parseBits
+
+def parseKind? (s : String) : Option Bool :=
+  if s == "compact" then some true else if s == "full" then some false else none
+
+def decHandle : List String → String
+  | "hld" :: bits :: opts =>
+    match AztecDecoder.getEncodedData AztecLink.refTables (regOf opts) (parseBits bits) with
+    | .ok segs => showSegs segs
+    | .error e => "ERR:" ++ e.tag
+  | "decode" :: kind :: layers :: dw :: rows :: opts =>
+    match parseKind? kind, parseNat? layers, parseNat? dw with
+    | some compact, some l, some dw =>
+      let m := parseRows rows
+      if m.length ≠ AztecDecoder.matrixSize l compact ∨ m.any (·.length ≠ m.length) then "OUT-OF-DOMAIN"
+      else
+      match AztecDecoder.decode AztecLink.refTables (regOf opts) AztecDecoder.rsMirror m compact dw l with
+      | .ok d => s!"{showSegs d.segs} raw={showHex d.rawBytes} nbits={d.numBits} ec={d.ecLevel}"
+      | .error e => "ERR:" ++ e.tag
+    | _, _, _ => "bad-op"
+  | ["extract", kind, layers, rows] =>
+    match parseKind? kind, parseNat? layers with
+    | some compact, some l =>
+      match AztecDecoder.extractBits (parseRows rows) l compact with
+      | .ok bs => showBitsD bs
+      | .error e => "ERR:" ++ e.tag
+    | _, _ => "bad-op"
+  | ["pos", kind, layers] =>
+    match parseKind? kind, parseNat? layers with
+    | some compact, some l =>
+      ",".intercalate ((AztecDecoder.readPositions l compact).map (fun (x, y) => s!"{x}:{y}"))
+    | _, _ => "bad-op"
+  | ["layoutcheck", kind, layers] =>
+    match parseKind? kind, parseNat? layers with
+    | some compact, some l =>
+      let ps := AztecDecoder.readPositions l compact
+      let cells := ps.map (fun (x, y) => cellAt compact l x y)
+      let want := (List.range (totalBits compact l)).map Cell.data
+      if cells == want then s!"ok {ps.length}" else "MISMATCH"
+    | _, _ => "bad-op"
+  | ["detect", kind, shift, mode] =>
+    match parseKind? kind, parseNat? shift with
+    | some compact, some sh =>
+      let sides := AztecLink.sidesAt compact (parseBits mode) sh
+      let length := if compact then 10 else 14
+      match AztecDecoder.getRotation AztecLink.refExpectedCornerBits sides length with
+      | .error e => "ERR:" ++ e.tag
+      | .ok s =>
+        match AztecDecoder.correctedParameters AztecDecoder.rsMirror compact
+                (AztecDecoder.parameterData compact sides s) with
+        | .ok (l, dw) => s!"ok shift={s} layers={l} dw={dw}"
+        | .error e => "ERR:" ++ e.tag
+    | _, _ => "bad-op"
+  | _ => "bad-op"
 
 /-- line-protocol handler of suite `c11` (arguments after the suite name) -/
 def handle : List String → String
-  | _ => "bad-op"
+  | "ref" :: kind :: layers :: arg :: opts =>
+    match parseNat? layers, parseOpsArg? arg with
+    | some l, some ops =>
+      let mc := (argNat opts "mc").getD 3
+      match encodeOps (kind == "compact") l ops mc with
+      | .ok s => showSymbol s
+      | .error e => showEncErr e
+    | _, _ => "bad-op"
+  | ["script", arg] =>   -- the script the greedy encoder chooses, its bits and its meaning
+    match parseOpsArg? arg with
+    | some ops =>
+      match encodeScript .upper ops with
+      | some bits => s!"ok {showScript ops} {showBitsD bits} " ++
+          " ".intercalate ((scriptItems .upper ops).map showItem)
+      | none => "ERR:badscript"
+    | none => "bad-op"
+  | args => decHandle args
 
 end Gzx.Driver.C11
